@@ -74,7 +74,7 @@ def WNum.ok : WNum → Bool
   | .bin op t l r =>
     !(op.isComparison || op.isLogical) && !(l.isConst && r.isConst) &&
       (l.isConst || l.ty? == some t) && (r.isConst || isShiftOp op || r.ty? == some t) && l.ok && r.ok
-  | .as _ e => !e.isConst && e.ok
+  | .as _ e => e.ok
 
 /-- a typed store: variable `i` holds a value of an unsigned type -/
 abbrev Store := Nat → Option (WTy × Int)
